@@ -938,14 +938,15 @@ func (t *tScreen) drawCell(x, y int) int {
 	buf := make([]byte, 0, 6)
 
 	buf = t.encodeRune(mainc, buf)
+	mainLen := len(buf)
 	for _, r := range combc {
 		buf = t.encodeRune(r, buf)
 	}
 
 	str = string(buf)
-	if width > 1 && str == "?" {
+	if width > 1 && string(buf[:mainLen]) == "?" {
 		// No FullWidth character support
-		str = "? "
+		str += " "
 		t.cx = -1
 	}
 
